@@ -46,7 +46,9 @@ RULE = (
     "lists and again with LazyLists (top level, all levels or inner levels only), and compared with the "
     "list built from the same element applied to the paired scalars; where that held, a third run hands the "
     "lists through a producer element (uniquify / map / filter / flatten / slice / reverse) inside the program so "
-    "the element meets lazy lists as real programs make them. distinct_nontrivial = distinct "
+    "the element meets lazy lists as real programs make them. As many sets again are drawn with the domain's "
+    "value restrictions lifted (zero divisors, empty strings, negative counts; 30 % edge values): those on which a "
+    "scalar application raises are skipped and counted, the rest are held to the same law. distinct_nontrivial = distinct "
     "(element, shape, eager|lazy|produced placement, argument spec) tuples that were conclusive (all scalar "
     "applications returned) and contained at least one scalar pair (empty lists alone do not count)."
 )
@@ -161,9 +163,17 @@ def _kinds(d, flavour):
     return ks
 
 
+_EDGE = [False]
+
+
 def gen_scalar(r, dom, flavour=None):
     d = _domain(dom)
     ks = _kinds(d, flavour)
+    if _EDGE[0] and r.random() < 0.3:
+        # relaxed-domain sets lean on the values the curated domains leave out
+        edge = [v for v in (0, -1) if v in d.get("ints", ())] + [v for v in ("",) if v in d.get("strs", ()) and "str" in ks]
+        if edge:
+            return r.choice(edge)
     w = d.get("weights", {"int": 0.5, "rat": 0.2, "str": 0.3})
     kind = r.choices(ks, [w.get(k, 0.1) for k in ks])[0]
     if kind == "int":
@@ -384,6 +394,8 @@ def short(x, n=160):
 
 
 LAZY_MODES = ["top", "all", "inner"]
+RELAXED = {"nzmix": "mix", "nz": "num", "pos": "num", "posint": "int", "nat": "int", "posmix": "mix",
+           "posintmix": "intmix", "natmix": "intmix"}
 
 
 def run_case(key, shape, args, lazy_mode, res, replay_unit):
@@ -638,6 +650,28 @@ def run_unit(unit):
                 run_produced(key, shape, args, PRODUCERS[(i + unit["chunk"]) % len(PRODUCERS)], res, ru)
             i += 1
         res["counters"]["argument_sets_generated"] = i
+        # the curated domains keep the scalar law statable (non-zero divisors, non-empty separators,
+        # positive counts); as many sets again lift those value restrictions (never the
+        # type classes): sets on which some scalar application raises are skipped, the rest are held
+        # to the same law
+        wild = dict(entry, domains=[RELAXED.get(d, d) for d in entry["domains"]])
+        if wild["domains"] == entry["domains"]:
+            res["counters"]["scalar_applications"] = _stats["scalar_applications"] - before
+            return res
+        j = 0
+        while j < unit["n"]:
+            _EDGE[0] = True
+            try:
+                args = gen_case(r, wild, shape)
+            finally:
+                _EDGE[0] = False
+            mode = LAZY_MODES[(j + unit["chunk"]) % len(LAZY_MODES)]
+            ru = {"kind": "one", "key": key, "shape": shape, "args": args, "lazy_mode": mode}
+            st = run_case(key, shape, args, mode, res, ru)
+            if st != "skipped":
+                res["counters"]["relaxed_domain_sets_conclusive"] = res["counters"].get("relaxed_domain_sets_conclusive", 0) + 1
+            j += 1
+        res["counters"]["relaxed_domain_sets_generated"] = j
     res["counters"]["scalar_applications"] = _stats["scalar_applications"] - before
     return res
 
